@@ -1671,7 +1671,10 @@ def op_reserved(w, op):
         if not is_reserved(rp):
             raise env.HarnessError(rp)
         g = dv.mc if (base == "/" and op.get("on_container")) else dv.mc[base]
-        if op.get("via_local") and not rp.startswith("/"):
+        if op.get("as_bytes") and method not in ("setitem_softlink", "setitem_hardlink_obj", "copy_dst_group_name"):
+            rp = rp.encode()  # h5py also takes names as bytes
+            w.probe("reserved_probe_bytes_path")
+        if op.get("via_local") and not (rp.startswith("/") if isinstance(rp, str) else rp.startswith(b"/")):
             g = dv.mc[base].restrict(local_only=True)
             w.probe("reserved_probe_via_local_only")
         result = None
@@ -1730,7 +1733,9 @@ def op_reserved(w, op):
             elif method == "copy_dst_group_name":
                 if user_any is None:
                     continue
-                g.copy(user_any, g, name="metador_named")
+                dsto = {"self": g, "container": dv.mc, "root": dv.mc["/"]}[op.get("dst_obj", "self")]
+                nm = {"plain": "metador_named", "meta": META_PREF + (user_ds or "q"), "nested": "metador_container/evil"}[op.get("dst_name", "plain")]
+                g.copy(user_any, dsto, name=nm)
                 result = "copied"
             elif method == "pack_target":
                 pack_file(g, fpath, target=rp)
@@ -1759,7 +1764,13 @@ def op_reserved(w, op):
 
 
 def gen_reserved(g, sh, ms):
-    return {"op": "reserved", "method": g.choice(RESERVED_METHODS), "variant": g.choice(RESERVED_VARIANTS), "base": g.choice(sh.groups()), "on_container": g.random() < 0.4, "via_local": g.random() < 0.25}
+    op = {"op": "reserved", "method": g.choice(RESERVED_METHODS), "variant": g.choice(RESERVED_VARIANTS), "base": g.choice(sh.groups()), "on_container": g.random() < 0.4, "via_local": g.random() < 0.25}
+    if g.random() < 0.2:
+        op["as_bytes"] = True
+    if g.random() < 0.25:
+        op["method"] = "copy_dst_group_name"
+        op.update(dst_obj=g.choice(["self", "container", "root"]), dst_name=g.choice(["plain", "meta", "nested"]))
+    return op
 
 
 # ====================================================================== restricted actors (C15)
